@@ -18,6 +18,7 @@ import contextlib
 import functools
 import io
 import itertools
+import math
 import os
 import random
 import time
@@ -666,7 +667,11 @@ def decoders_native(spec, cfg, tier, seed):
                                 wit = None if ok else {"N": N, "k": k, "frozen_zeros": fz, "polar_i": pi, "regime": regime, "magnitude": a, "batch": len(mb), "message": mb[0].tolist(), "decoded": out[0].tolist() if out.dim() == 2 else str(tuple(out.shape))}
                             except Exception as e:
                                 ok, wit = False, {"N": N, "k": k, "frozen_zeros": fz, "polar_i": pi, "regime": regime, "magnitude": a, "raised": repr(e)[:200]}
-                            record(f"{name}.noise_free.{regime}", ok, wit)
+                            # float32 sum-product: the check-node magnitude of the worst synthetic channel is about tanh(a/2)^N, which
+                            # underflows for small |LLR| and large N; those samples are reported under their own clause (known finding:
+                            # genuine float32 behaviour, outside the 'floats are reals' model of the proofs)
+                            underflow = regime == "sum_product" and N * math.log10(math.tanh(a / 2)) < -30
+                            record(f"{name}.noise_free.{regime}" + (".float32_underflow_regime" if underflow else ""), ok, wit)
                         pos += bsz
                         bsz = bsz % 8 + 1
                 # SC == textbook on random dyadic LLRs (exact in float64 for min-sum)
@@ -697,3 +702,25 @@ def decoders_native(spec, cfg, tier, seed):
         r.wall_s = round(time.time() - t0, 2)
         res.append(r)
     return res
+
+
+# ---------------------------------------------------------------------------------------- float32 underflow (closed obligation; known finding)
+@obligation("C11.sc_sum_product_float32_underflow_input", function=F_SC if "F_SC" in globals() else "kaira/models/fec/decoders/successive_cancellation.py:SuccessiveCancellationDecoder.forward", configs=lambda tier: [Cfg("polar", 1024, 933, "mag0.5")], kind="ground", engine="ground")
+def sc_float32_underflow_input(cfg):
+    """noise-free LLRs of magnitude 0.5 at N = 1024, k = 933, sum-product regime: in float32 the check-node products underflow to 0,
+    sign(0) = 0 and the decoder returns 0.5 for many message bits.  Over the reals (the model of the symbolic proofs) the clause holds."""
+    import torch
+
+    from kaira.models.fec.decoders.successive_cancellation import SuccessiveCancellationDecoder
+    from kaira.models.fec.encoders.polar_code import PolarCodeEncoder
+
+    _, N, k, _m = cfg
+    with contextlib.redirect_stdout(io.StringIO()):
+        enc = PolarCodeEncoder(k, N)
+        dec = SuccessiveCancellationDecoder(enc, regime="sum_product")
+    g = torch.Generator().manual_seed(0)
+    m = torch.randint(0, 2, (2, k), generator=g).float()
+    x = enc(m)
+    out = dec(0.5 * (1 - 2 * x))
+    wrong = int((out != m).sum())
+    yield "noise_free_llrs_decode_to_message", wrong == 0, f"{wrong} of {2 * k} decoded values differ from the message ({int((out == 0.5).sum())} are 0.5, i.e. the float32 decision LLR is exactly 0)"
